@@ -51,12 +51,12 @@ def s1(ck, an):
     for short in ("FutureChain._lead_contract_idx", "FutureChain.lead_contract"):
         f2 = an.fa(short)
         p = f2.f.params[1]
-        defs = [d for d in f2.rd.defs if d.var == p and d.kind == "assign"]
-        ok = len(defs) == 1 and ast.unparse(defs[0].value) == "self.now"
-        if ok:
-            sg = f2.syntactic_guards(defs[0].ast)
-            ok = len(sg) == 1 and sg[0][0] == "is" and "None" in (sg[0][1], sg[0][2]) and sg[0][3]
-        ck.check(ok, "ARGFLOW", "S1.now-defaults-to-clock", f2.f.short, f2.f.loc, "`now` defaults to the simulation clock only when it is not given", f"`{p}` is redefined as {[ast.unparse(d.value) for d in defs]}",
+        # the time used is the argument, or the simulation clock when it is None: value id of `now` where the function returns
+        rets_ = returns_in(f2)
+        at_ = f2.node_of(rets_[0]).id if rets_ else f2.cfg.entry.id
+        used = f2.sym.ev(ast.Name(id=p, ctx=ast.Load()), at_)
+        ok = used == specv(f2, f"self.now if {p} is None else {p}") or (short.endswith("lead_contract") and used in (specv(f2, f"self.now if {p} is None else {p}"), Poly.atom(p)))
+        ck.check(ok, "ARGFLOW", "S1.now-defaults-to-clock", f2.f.short, f2.f.loc, "`now` defaults to the simulation clock only when it is not given", f"`{p}` is {used.key()[:120]} when the lead is resolved",
                  construct="if now is None: now = self.now")
         w = [e for e in f2.effects() if e.kind in "WMD" and e.owner in ("FutureChain", "?", "class:FutureChain")]
         ck.check(not w, "EFFECT", "S1.lead-not-cached", f2.f.short, f2.f.loc, "the lead contract is recomputed on every call (nothing is stored)",
@@ -136,17 +136,9 @@ def s3(ck, an):
     r = ret_canons(fa)
     ck.check(r == ["self"], "ARGFLOW", "S3.plain-contract-static", fa.f.short, fa.f.loc, "ordinary contracts hash as themselves", f"static_hashing returns {r}", construct="return self")
     # users of contract-keyed containers normalise
-    fg = an.fa("Exchange.__getitem__")
-    keyp = fg.f.params[1]
-    good = False
-    for c in fg.calls_named("static_hashing"):
-        st = enclosing_stmt(c)
-        if isinstance(st, ast.Assign) and isinstance(st.targets[0], ast.Name) and st.targets[0].id == keyp and ast.unparse(c.func.value) == keyp:
-            sg = fg.syntactic_guards(c)
-            if all(p[0] == "truthy" and "isinstance" in p[1] and "AbstractContract" in p[1] and p[2] for p in sg) and sg:
-                good = True
-    ck.check(good, "IDIOM", "S3.exchange-normalises-key", fg.f.short, fg.f.loc, "Exchange.__getitem__ replaces a contract key by key.static_hashing()", "Exchange.__getitem__ does not normalise contract keys",
-             construct="key = key.static_hashing()")
+    # users of contract-keyed containers normalise: Exchange.__getitem__ (decision table over "the key is a contract", C14-S5)
+    from rules import C14, ledger
+    C14.s5(ledger._Only(Renamed(ck, "S3:"), {"getitem-normalises-key", "getitem-returns-book"}), an)
     allocation_filters(Renamed(ck, "S3:"), an, "alloc")
     # holdings are keyed by the contract of the trade, which comes from an allocation key
     ft = an.fa("Broker.transact")
